@@ -50,8 +50,7 @@ Proof.
 Qed.
 Print Assumptions C15_refuted_by.
 
-(* The verdict for the configuration extracted from the sources of THIS run: holds, or refuted by a computed witness.
-   (On the tree at 1465503: refuted, the only unvisited modelled slot is PostgreSQLQueryBuilder._using.) *)
+(* The verdict for the configuration extracted from the sources of THIS run: holds, or refuted by a computed witness. *)
 Theorem C15_verdict : if full_cfg tcfg then C15_full_statement else ~ C15_full_statement.
 Proof.
   destruct (full_cfg tcfg) eqn:F.
@@ -61,6 +60,28 @@ Proof.
              apply existsb_exists in E; destruct E as [o [_ R]]; exact (C15_refuted_by o R)) ].
 Qed.
 Print Assumptions C15_verdict.
+
+(* Since 9e54a8b (DELETE..USING tables) the extracted configuration is complete: the property HOLDS for every object of the
+   model -- all terms of the shared expression AST, all wrapper terms, all well-formed statements of the four builder classes
+   (the exact list is in the comment of C15_full_statement).  [full_cfg tcfg = true] is checked by evaluation of the table
+   extracted from the sources of this run: a replace_table that stops entering any modelled slot breaks this proof. *)
+Theorem C15_holds : C15_full_statement.
+Proof. exact (C15_holds_when_all_visited eq_refl). Qed.
+Print Assumptions C15_holds.
+
+(* in terms of rendering: the replaced object renders exactly like the object built with B, in every context *)
+Theorem C15_holds_render : forall A B,
+  (forall t c, sub_foreign A t = true -> render c (rep A B t) = render c (subst A B t))
+  /\ (forall w c, sf_wt A w = true -> render_wt c (rep_wt A B w) = render_wt c (subst_wt A B w))
+  /\ (forall s, wf_stmt s = true -> sf_stmt A s = true ->
+        stmt_after A B s = (dump_stmt (subst_stmt A B s), star_names (subst_stmt A B s))).
+Proof.
+  intros A B. destruct (C15_holds A B) as [Ht [Hw [Hs _]]]. split; [|split].
+  - intros t c F. rewrite (Ht t F). reflexivity.
+  - intros w c F. rewrite (Hw w F). reflexivity.
+  - intros s W F. unfold stmt_after. rewrite (Hs s W F). reflexivity.
+Qed.
+Print Assumptions C15_holds_render.
 
 (* Independently of the statement-level verdict: the property holds for every term of the shared expression AST,
    because every slot of every expression class is visited (dropping one breaks this proof). *)
